@@ -41,7 +41,7 @@ var c20Positional = []string{"1", "2", "9", "10", "11", "00", "01", "000", "9223
 // c20Environ: entries of the PROCESS environment present when the ExecEnv is created (names that are
 // not shell variable names: whatever the store does with them, $1 / $# / $0 reflect Args).
 var c20Environ = [][2]string{{"1", "envone"}, {"12", "env12"}, {"2", ""}, {"#", "envhash"}, {"0", "envzero"}, {"08", "env08"}}
-var c20Values = []string{"", "0", "1", "7", "42", "-3", "abc", "a b", "08", " ", "é"}
+var c20Values = []string{"", "0", "1", "7", "42", "-3", "abc", "a b", "08", " ", "é", "2147483648", "-4294967297", "9007199254740993"}
 var c20Words = []string{"w", "", "a b", "5", "$X", "'q'", "a$N"}
 
 // c20Alphabet: the reduced operation alphabet whose histories of length 1..3 are enumerated exhaustively.
@@ -140,7 +140,7 @@ func (c20) build(src *gen.Source) *Case {
 				// a Walk whose callback changes the store: entries must be live when they are reported
 				op = Op{Op: "walkmut", Name: src.Pick(c20Ordinary), Value: src.Pick(c20Ordinary)}
 			} else {
-				op = Op{Op: "parse", Value: src.Pick([]string{"ll a; b\n", "ll\n", "x=1 ll $x ${y:=2}\n", "ll | ll && $((z=3))\n", "alias ll=x\n"})}
+				op = Op{Op: "parse", Value: src.Pick([]string{"ll a; b\n", "ll\n", "x=1 ll $x ${y:=2}\n", "ll | ll && $((z=3))\n", "alias ll=x\n", "l2 a\n", "l3 ll; l2\n"})}
 			}
 		case 5:
 			if src.Chance(1, 2) {
@@ -168,11 +168,11 @@ func (c20) build(src *gen.Source) *Case {
 		case 9, 10:
 			tmpl := src.Pick([]string{"$((N=K))", "$((N+=K))", "$((N++))", "$((--N))", "$((N-=K))", "$((N*=K))", "$((1/0))", "$((08))", "$((N+1/0))", "$((N N))", "$((N))", "$((N+K))", "$((N+=M))", "$((N*=M))", "$((N=M))", "$((N-=M))", "$((N=$1))", "$((N=${2}+1))"})
 			tmpl = strings.ReplaceAll(tmpl, "M", src.Pick([]string{"_y1", "X", "HOME"}))
-			op = Op{Op: "expand", Name: src.Pick(c20Ordinary), Value: strings.ReplaceAll(tmpl, "K", src.Pick([]string{"0", "1", "5", "12"}))}
+			op = Op{Op: "expand", Name: src.Pick(c20Ordinary), Value: strings.ReplaceAll(tmpl, "K", src.Pick([]string{"0", "1", "5", "12", "2147483647", "4294967296"}))}
 		default:
-			tmpl := src.Pick([]string{"N=K", "N+=K", "N++", "--N", "1/0", "N N", "N", "(N=K)+1", "N+=M", "N*=M", "N=M", "--N + --N", "N++ + N", "--N * 0 + N++", "++N + N--", "N += N", "M = (N = 5) + (N = 7)", "(N = 2) + (N = 3)"})
+			tmpl := src.Pick([]string{"N=K", "N+=K", "N++", "--N", "1/0", "N N", "N", "(N=K)+1", "N+=M", "N*=M", "N=M", "--N + --N", "N++ + N", "--N * 0 + N++", "++N + N--", "N += N", "M = (N = 5) + (N = 7)", "(N = 2) + (N = 3)", "M = ++N", "M = --N", "M = ++N"})
 			tmpl = strings.ReplaceAll(tmpl, "M", src.Pick([]string{"_y1", "X", "HOME"}))
-			op = Op{Op: "eval", Name: src.Pick(c20Ordinary), Value: strings.ReplaceAll(tmpl, "K", src.Pick([]string{"0", "1", "5", "12"}))}
+			op = Op{Op: "eval", Name: src.Pick(c20Ordinary), Value: strings.ReplaceAll(tmpl, "K", src.Pick([]string{"0", "1", "5", "12", "2147483647", "4294967296"}))}
 		}
 		op.Value = strings.ReplaceAll(op.Value, "N", op.Name)
 		// observing changes what is observed (a Walk may clean up, a Get may refill a cache):
@@ -490,8 +490,8 @@ func (p c20) Run(t *testing.T, c *Case, s Sched, keepLog bool) *Obs {
 				}
 			}
 		}
-		aliases := map[string]string{"ll": "ls -l"}
-		env.Aliases = map[string]string{"ll": "ls -l"}
+		aliases := map[string]string{"ll": "ls -l", "l2": "ls  ", "l3": "l2 \t "}
+		env.Aliases = map[string]string{"ll": "ls -l", "l2": "ls  ", "l3": "l2 \t "}
 		m := &c20Model{vars: inherited, args: append([]string{}, env.Args...)}
 		for si, op := range c.History {
 			desc := fmt.Sprintf("step %d %s %s %q", si, op.Op, op.Name, op.Value)
@@ -580,6 +580,31 @@ func (p c20) Run(t *testing.T, c *Case, s Sched, keepLog bool) *Obs {
 						if mm[1] == mm[2] {
 							m.vars[mm[1]] = "12"
 						}
+						live.Assigns++
+					}
+					break
+				}
+				if mm := regexp.MustCompile(`^([^ ()=+-]+) = (\+\+|--)([^ ()=+-]+)$`).FindStringSubmatch(op.Value); mm != nil {
+					// the value of a prefix operation assigned to ANOTHER variable: both are written
+					cur, _ := m.get(mm[3])
+					nv, ok := cleanInt(cur)
+					if mm[1] == mm[3] || !ok {
+						parts = append(parts, "skip")
+						break
+					}
+					if mm[2] == "++" {
+						nv++
+					} else {
+						nv--
+					}
+					sim.Yield(gosim.PCallerMark)
+					n, err := env.Eval(op.Value)
+					parts = append(parts, fmt.Sprintf("eval %q n=%d %s", op.Value, n, DumpErr(err)))
+					if err != nil {
+						add("unexpected-eval-error", fmt.Sprintf("%s: %v", desc, err))
+					} else {
+						m.vars[mm[3]] = strconv.Itoa(nv)
+						m.vars[mm[1]] = strconv.Itoa(nv)
 						live.Assigns++
 					}
 					break
